@@ -12,8 +12,13 @@ export VERIF_COVER=1 GOCOVERDIR=$OUT/raw VERIF_WORK_SUFFIX=-cov
 for id in $IDS; do
   echo "### $id $TIER"; ./check $id $TIER 2>&1 | grep -a -E "^VIOLATION|SUMMARY|INCONCL|BROKEN" | cut -c1-200
 done
-(cd harness && go tool covdata textfmt -i=$OUT/raw -o $OUT/profile.txt)
-grep -v -E "^verifharness|^github.com/jig/lisp/[^:]*verif[^:]*\.go" $OUT/profile.txt > $OUT/profile.f.txt
+# race workers count in atomic mode, the others in set mode: one profile per build (meta-data hash), merged below
+mkdir -p $OUT/prof
+for m in $(ls $OUT/raw | grep '^covmeta\.' | sed 's/covmeta\.//'); do
+  mkdir -p $OUT/split/$m; ln -f $OUT/raw/covmeta.$m $OUT/split/$m/; ln -f $OUT/raw/covcounters.$m.* $OUT/split/$m/ 2>/dev/null
+  (cd harness && go tool covdata textfmt -i=$OUT/split/$m -o $OUT/prof/$m.txt)
+done
+cat $OUT/prof/*.txt | grep -v -E "^verifharness|^github.com/jig/lisp/[^:]*verif[^:]*\.go" > $OUT/profile.f.txt
 python3 - $OUT/profile.f.txt > $OUT/uncovered.txt <<'PY'
 import sys, collections
 cov=collections.defaultdict(int); stm={}
